@@ -22,6 +22,9 @@ class Window:
             jobs_window = 0
         self.jobs_window = jobs_window
         self.queue = asyncio.Queue(maxsize=jobs_window)
+        # the window is closed when the run is over, i.e. once a critical
+        # job has failed: a job that obtains a slot from then on does not start
+        self.closed = False
 
     def run_job(self, job):
         """
@@ -35,6 +38,10 @@ class Window:
             await self.queue.put(1)
             release = True
             try:
+                if self.closed:
+                    # the run was over before we could obtain a slot, the
+                    # scheduler is about to cancel us: wait for that
+                    await asyncio.get_running_loop().create_future()
                 job._running = True                     # pylint: disable=w0212
                 value = await job.co_run()
             except Exception:
@@ -42,6 +49,8 @@ class Window:
                 # keep the slot, so that no job queued behind this one can
                 # start before the scheduler has cancelled it
                 release = not job.is_critical()
+                if not release:
+                    self.closed = True
                 raise
             finally:
                 # release slot in the queue, whatever the outcome of the job
